@@ -29,6 +29,11 @@ SPEC_DIR = "survey"
 
 # cfg files per tier: <pair>_<flavour>.cfg, see spec/survey/gen_cfgs.py for how they were written
 FLAVOURS = {"quick": ["qs", "qe"], "thorough": ["qs", "qe", "ts", "te"]}
+# configurations whose replay also runs the file-layout oracle (harness/h5snap.py) after copies and on the closed files
+LAYOUT_FLAVOURS = ("qi.cfg", "qg.cfg")
+# property group holding the id data (qi) / copies of the group that holds the pair (qg)
+SPECIAL = {"quick": [("DC", "qi"), ("LLFEM", "qi"), ("DC", "qg"), ("AFEM", "qg")],
+           "thorough": [("DC", "qi"), ("LLFEM", "qi"), ("DC", "qg"), ("AFEM", "qg")]}
 # re-linking with additional originals (a second A / B): only these pairs have the configurations
 RELINK = {"quick": [("DC", "qr"), ("AFEM", "qr")], "thorough": [("DC", "qr"), ("AFEM", "qr"), ("DC", "tr"), ("AFEM", "tr")]}
 # negative controls: one named deviation switched on, TLC must report one of these properties as violated
@@ -39,7 +44,9 @@ NEGATIVE = [("ATEM_dev_WaveformAliased.cfg", {"WriteThrough", "EditIsLocal"}),
             ("MLTEM_dev_LoopRadiusNoneHalfApplied.cfg", {"WriteThrough", "RefusedIsNoop"}),
             ("TIP1_dev_TipperSingleBaseMaskedCopy.cfg", {"RefusedIsNoop", "CopyCopiesPartner"}),
             ("DC_dev_RelinkKeepsCachedPartner.cfg", {"LinkSticks", "BothIds", "SharedEqual"}),
-            ("AFEM_dev_RelinkLeavesSharedDictionary.cfg", {"WriteThrough"})]
+            ("AFEM_dev_RelinkLeavesSharedDictionary.cfg", {"WriteThrough"}),
+            ("DC_dev_CopyFailsOnGroupedIdData.cfg", {"RefusedIsNoop", "CopyCopiesPartner"}),
+            ("AFEM_dev_GroupCopyDuplicatesPair.cfg", {"GroupCopyOnce"})]
 
 SIGNATURES = {
     "WaveformAliased": "copy-shares-waveform-dict-with-source",
@@ -50,6 +57,8 @@ SIGNATURES = {
     "TipperSingleBaseMaskedCopy": "masked-copy-of-tipper-receivers-fails-with-single-base-station",
     "RelinkKeepsCachedPartner": "taken-over-partner-keeps-resolving-its-previous-partner",
     "RelinkLeavesSharedDictionary": "former-partner-live-metadata-follows-the-new-pair",
+    "CopyFailsOnGroupedIdData": "copy-fails-when-a-property-group-holds-the-linking-data",
+    "GroupCopyDuplicatesPair": "group-copy-duplicates-the-linked-pair",
 }
 
 CLASSES = {
@@ -89,6 +98,18 @@ WAVE = {"w1": [[0.0, 1.0], [1.0, 0.0]], "w2": [[0.0, 0.0], [0.5, 1.0], [2.0, 0.0
 MASKS = {"lo": (0.5, 2.5), "mid": (1.75, 3.25), "hi": (2.5, 4.5)}
 MASK_ST = {"lo": {1, 2}, "mid": {2, 3}, "hi": {3, 4}}
 MASK_GR = {"lo": {1}, "mid": set(), "hi": {2}}
+# x of the centre of transmitter loop / current dipole g.  LLFEM has a third loop (2) that no receiver refers to.
+LOOP_X = {1: 1.5, 2: 3.5}
+LOOP_X_SPARE = {1: 1.5, 2: 2.2, 3: 3.5}
+MASK_GR_SPARE = {"lo": {1, 2}, "mid": {2}, "hi": {3}}
+RX_IDS_SPARE = [1, 1, 3, 3]
+SPARE = {"LLFEM"}
+
+
+def loop_of(pair, x):
+    table = LOOP_X_SPARE if pair in SPARE else LOOP_X
+    g = min(table, key=lambda k: abs(table[k] - x))
+    return g if abs(table[g] - x) < 0.2 else 0
 
 
 def family(pair):
@@ -99,7 +120,7 @@ def family(pair):
 class World:  # pylint: disable=too-many-instance-attributes
     """The implementation side: two workspace files, the entities created so far, action + projection."""
 
-    def __init__(self, pair, tag, n_orig=2):
+    def __init__(self, pair, tag, n_orig=2, idingroup=False, ingroup=False):
         from geoh5py import Workspace
         self.pair = pair
         self.fam = family(pair)
@@ -112,44 +133,57 @@ class World:  # pylint: disable=too-many-instance-attributes
         self.table = []  # per id-1: dict(ws, uid, role)
         self.objs = []  # live python objects, same index
         self.n_orig = n_orig
+        self.idingroup = idingroup
+        self.check_layout = False
+        self.group = None
+        if ingroup:
+            from geoh5py.groups import ContainerGroup
+            self.group = ContainerGroup.create(self.ws[1], name="G")
         self._build()
 
     # ---------------------------------------------------------------- construction of the originals
     def _build(self):
         import geoh5py.objects as O
         ws = self.ws[1]
+        kw = {} if self.group is None else {"parent": self.group}
         cls_a, cls_b = CLASSES[self.pair]
         st = np.array([[float(s), 0.0, 0.0] for s in (1, 2, 3, 4)])
+        loops = LOOP_X_SPARE if self.pair in SPARE else LOOP_X
         if self.pair == "DC":
             v, c = [], []
             for s in (1, 2, 3, 4):
                 v += [[s - 0.1, 0.0, 0.0], [s + 0.1, 0.0, 0.0]]
                 c += [[2 * (s - 1), 2 * (s - 1) + 1]]
             vb, cb = [], []
-            for g in (1, 2):
-                vb += [[2 * g - 0.6, 10.0, 0.0], [2 * g - 0.4, 10.0, 0.0]]
-                cb += [[2 * (g - 1), 2 * (g - 1) + 1]]
-            b = O.CurrentElectrode.create(ws, vertices=np.array(vb), cells=np.array(cb, dtype="uint32"), name="B")
+            for k, g in enumerate(sorted(loops)):
+                vb += [[loops[g] - 0.1, 10.0, 0.0], [loops[g] + 0.1, 10.0, 0.0]]
+                cb += [[2 * k, 2 * k + 1]]
+            b = O.CurrentElectrode.create(ws, vertices=np.array(vb), cells=np.array(cb, dtype="uint32"), name="B", **kw)
             b.add_default_ab_cell_id()
-            a = O.PotentialElectrode.create(ws, vertices=np.array(v), cells=np.array(c, dtype="uint32"), name="A")
+            a = O.PotentialElectrode.create(ws, vertices=np.array(v), cells=np.array(c, dtype="uint32"), name="A", **kw)
             a.ab_cell_id = np.array([1, 1, 2, 2], dtype="int32")
         elif self.pair in LARGE_LOOP:
-            a = getattr(O, cls_a).create(ws, vertices=st, name="A")
+            a = getattr(O, cls_a).create(ws, vertices=st, name="A", **kw)
             vb, cb, n = [], [], 0
-            for g in (1, 2):
-                x0, x1 = 2 * g - 0.6, 2 * g - 0.4
+            for g in sorted(loops):
+                x0, x1 = loops[g] - 0.1, loops[g] + 0.1
                 vb += [[x0, 10.0, 0.0], [x0, 10.2, 0.0], [x1, 10.2, 0.0], [x1, 10.0, 0.0]]
                 cb += [[n, n + 1], [n + 1, n + 2], [n + 2, n + 3], [n + 3, n]]
                 n += 4
-            b = getattr(O, cls_b).create(ws, vertices=np.array(vb), cells=np.array(cb, dtype="uint32"), name="B")
+            b = getattr(O, cls_b).create(ws, vertices=np.array(vb), cells=np.array(cb, dtype="uint32"), name="B", **kw)
             b.tx_id_property = b.parts + 1
-            a.tx_id_property = np.array([1, 1, 2, 2])
+            a.tx_id_property = np.array(RX_IDS_SPARE if self.pair in SPARE else [1, 1, 2, 2])
         else:
-            a = getattr(O, cls_a).create(ws, vertices=st, name="A")
+            a = getattr(O, cls_a).create(ws, vertices=st, name="A", **kw)
             b = None
             if cls_b:
                 vb = (st[:1] if self.pair == "TIP1" else st) + np.array([0.0, 1.0, 0.0])
-                b = getattr(O, cls_b).create(ws, vertices=vb, name="B")
+                b = getattr(O, cls_b).create(ws, vertices=vb, name="B", **kw)
+        if self.idingroup:
+            # a property group of the A entity that holds an ordinary data AND the data that links it to its partner
+            ids = a.ab_cell_id if self.pair == "DC" else a.tx_id_property
+            obs = a.add_data({"obs": {"values": np.arange(4.0), "association": "CELL" if self.pair == "DC" else "VERTEX"}})
+            a.add_data_to_group([obs, ids], "observations")
         self._register(a, 1, "A")
         if b is not None:
             self._register(b, 1, "B")
@@ -217,6 +251,8 @@ class World:  # pylint: disable=too-many-instance-attributes
                 return "ok"
             if act == "Copy":
                 return self._copy(lab)
+            if act == "CopyGroup":
+                return self._copy_group(lab)
             if act == "Reopen":
                 self.reopen()
                 return "ok"
@@ -279,7 +315,8 @@ class World:  # pylint: disable=too-many-instance-attributes
             else:
                 xs = obj.vertices[:, 0]
                 if self.pair in GROUPED and role == "B":
-                    keep = np.array([int(round((x + 0.5) / 2)) in MASK_GR[lab["m"]] for x in xs])
+                    table = MASK_GR_SPARE if self.pair in SPARE else MASK_GR
+                    keep = np.array([loop_of(self.pair, x) in table[lab["m"]] for x in xs])
                 else:
                     keep = np.array([int(round(x)) in MASK_ST[lab["m"]] for x in xs])
                 new = obj.copy(mask=keep, **kwargs)
@@ -291,15 +328,72 @@ class World:  # pylint: disable=too-many-instance-attributes
         if new is not None:
             new_key = (self._ws_index(new.workspace), new.uid)
             self._register(new, new_key[0], role)
+        rest = []
         for w, u in created:
             if (w, u) == new_key:
                 continue
             o = self.ws[w].get_entity(u)[0]
-            r = "A" if type(o).__name__ == CLASSES[self.pair][0] else "B"
+            rest.append((w, o, "A" if type(o).__name__ == CLASSES[self.pair][0] else "B"))
+        # debris of a failed copy: the copy of the entity the call was made on comes first, as in a successful copy
+        rest.sort(key=lambda t: 0 if (new is None and t[2] == role) else 1)
+        for w, o, r in rest:
             self._register(o, w, r)
         if failure is not None:
             raise failure
         return "none" if new is None else "ok"
+
+    def _copy_group(self, lab):
+        """Copy the container group that holds the originals; register what appeared, pair by pair."""
+        from geoh5py import Workspace
+        dst_ws = 1 if lab["dest"] == "same" else 2
+        if self.ws[dst_ws] is None:
+            self.ws[dst_ws] = Workspace.create(self.paths[dst_ws])
+        before = {(w, u) for w in (1, 2) for u in self._node_uids(w)}
+        failure = None
+        try:
+            self.group.copy(parent=self.ws[dst_ws]) if dst_ws == 2 else self.group.copy()
+        except Exception as exc:  # pylint: disable=broad-except
+            failure = exc
+        created = sorted((w, u) for w in (1, 2) for u in self._node_uids(w) if (w, u) not in before)
+        objs = {(w, u): self.ws[w].get_entity(u)[0] for w, u in created}
+        role = {k: ("A" if type(o).__name__ == CLASSES[self.pair][0] else "B") for k, o in objs.items()}
+        ka, kb = KEYS[self.fam]
+
+        def partner_key(key):
+            md = self._raw_from(self.ws[key[0]].geoh5, key[1])
+            if isinstance(md, dict) and self.fam != "DC":
+                md = md.get("EM Dataset", {})
+            val = (md or {}).get(kb if role[key] == "A" else ka) if isinstance(md, dict) else None
+            try:
+                other = (key[0], uuid.UUID(str(val)))
+            except (ValueError, TypeError):
+                return None
+            return other if other in objs and other != key else None
+
+        done = []
+        flip = False
+        for key in [k for k in created if role[k] == "A"]:
+            other = partner_key(key)
+            pair = [key] + ([other] if other is not None and other not in done else [])
+            done += pair[::-1] if flip else pair
+            flip = True
+        done += [k for k in created if k not in done]
+        for key in done:
+            self._register(objs[key], key[0], role[key])
+        if failure is not None:
+            raise failure
+        return "ok"
+
+    def layout_problems(self, closed=False):
+        """The layout rules of the file format (harness/h5snap.py) on both files."""
+        from .. import h5snap
+        out = []
+        for k in (1, 2):
+            if self.ws[k] is None:
+                continue
+            snap = h5snap.snapshot(self.paths[k] if closed else self.ws[k].geoh5)
+            out += [f"file {k}: {p}" for p in h5snap.wellformed(snap)]
+        return out
 
     def _close_all(self):
         devnull = os.open(os.devnull, os.O_WRONLY)
@@ -318,6 +412,7 @@ class World:  # pylint: disable=too-many-instance-attributes
         from geoh5py import Workspace
         self._close_all()
         self.closed_raw = self.raw_all_closed()
+        self.closed_layout = self.layout_problems(closed=True) if self.check_layout else []
         for k in (1, 2):
             if self.ws[k] is not None:
                 self.ws[k] = Workspace(self.paths[k])
@@ -473,7 +568,7 @@ class World:  # pylint: disable=too-many-instance-attributes
             return []
         xs = obj.vertices[:, 0]
         if self.pair in GROUPED and role == "B":
-            return sorted({int(round((x + 0.5) / 2)) for x in xs})
+            return sorted({loop_of(self.pair, x) for x in xs})
         return sorted({int(round(x)) for x in xs})
 
     def _refs(self, k, partner):
@@ -492,7 +587,7 @@ class World:  # pylint: disable=too-many-instance-attributes
         else:  # one id per vertex (= station)
             where = [int(round(x)) for x in obj.vertices[:, 0]]
         tids = np.asarray(theirs.values)
-        tgroups = [int(round((partner.vertices[c, 0].mean() + 0.5) / 2)) for c in partner.cells]
+        tgroups = [loop_of(self.pair, partner.vertices[c, 0].mean()) for c in partner.cells]
         out = set()
         for s, v in zip(where, ids):
             gs = {g for g, t in zip(tgroups, tids) if t == v}
@@ -626,13 +721,13 @@ def classify(lab, pre, exp, got, d):
     """A stable signature naming the mechanism that failed."""
     act = lab["act"]
     if d and d[0][1] == "entities":
-        if act == "Copy":
+        if act in ("Copy", "CopyGroup"):
             return "copy-does-not-copy-partner" if d[0][3] < d[0][2] else "copy-creates-extra-entities"
         return f"{act.lower()}-changes-entity-count"
     fields = {f.split(".par.")[0] if ".par." in f else f for _, f, _, _ in d}
     who = {k for k, _, _, _ in d}
     n_pre = len(pre)
-    if act == "Copy":
+    if act in ("Copy", "CopyGroup"):
         new_ids = {k for k in who if k > n_pre}
         if who - new_ids:
             return "copy-modifies-existing-entities"
@@ -676,7 +771,7 @@ def _replay(item):  # pylint: disable=too-many-locals
     pair, cfg, init, steps, defpar = item["pair"], item["cfg"], item["init"], item["steps"], item["defpar"]
     fam = "em" if family(pair) in ("em", "TIP") else "DC"
     lazy_upto = item.get("lazy_upto", 0)
-    stats = {"steps": 0, "acts": {}, "copies2": 0, "reopens": 0, "closed_raw_checks": 0, "lazy": 0,
+    stats = {"steps": 0, "acts": {}, "copies2": 0, "reopens": 0, "closed_raw_checks": 0, "lazy": 0, "layouts": 0,
              "cold_edits": 0, "relinks": 0, "cpu": time.process_time()}
     cold = False  # no partner getter was called by the harness since the last Reopen / LinkFrom
     viol = []
@@ -684,9 +779,12 @@ def _replay(item):  # pylint: disable=too-many-locals
     def bad(sig, msg, upto):
         viol.append({"signature": sig, "summary": f"[{pair}/{cfg}] {msg}",
                      "case": {"pair": pair, "cfg": cfg, "defpar": defpar, "init": init, "steps": steps[:upto + 1],
-                              "lazy_upto": min(lazy_upto, upto + 1)}})
+                              "lazy_upto": min(lazy_upto, upto + 1), "idingroup": bool(item.get("idingroup")),
+                              "ingroup": bool(item.get("ingroup")), "layout": bool(item.get("layout"))}})
 
-    world = World(pair, f"{os.getpid()}", n_orig=item.get("n_orig", len(init["ents"])))
+    world = World(pair, f"{os.getpid()}", n_orig=item.get("n_orig", len(init["ents"])),
+                  idingroup=bool(item.get("idingroup")), ingroup=bool(item.get("ingroup")))
+    world.check_layout = bool(item.get("layout"))
     try:
         pre = norm_expected(init["ents"], fam, defpar)
         got = norm_observed(world.observe(), fam)
@@ -725,8 +823,19 @@ def _replay(item):  # pylint: disable=too-many-locals
                 if closed != want:
                     got = [dict(g, file=c) if isinstance(g, dict) and "file" in g else g for g, c in zip(got, closed)]
             d = diff(exp, got) if out_kind == lab["out"] else [(-1, "outcome", lab["out"], out)]
+            if not d and world.check_layout and not lazy and out_kind == "ok" and \
+                    lab["act"] in ("Copy", "CopyGroup", "Reopen"):
+                # the abstract state is as specified: the stored files must also obey the layout rules of the format
+                probs = world.closed_layout if lab["act"] == "Reopen" else world.layout_problems()
+                stats["layouts"] += 1
+                if probs:
+                    hist = " ; ".join(_show(s["last"]) for s in steps[:n + 1])
+                    sig = "copy-stores-property-group-listing-data-that-is-not-a-child" \
+                        if any("property group" in q for q in probs) else f"file-layout-invalid-after-{lab['act'].lower()}"
+                    bad(sig, f"after {hist}: {'; '.join(probs[:4])}", n)
+                    return viol, stats
             if not d:
-                if lab["act"] == "Copy" and len(exp) == len(pre) + 2:
+                if lab["act"] in ("Copy", "CopyGroup") and len(exp) == len(pre) + 2:
                     stats["copies2"] += 1
                 pre = norm_expected(exp_state["ents"], fam, defpar)
                 continue
@@ -772,6 +881,8 @@ def _show(lab):
         return f"LinkFrom({lab['i']}->{lab.get('j', 3 - lab['i'])})"
     if a == "Edit":
         return f"Edit({lab['i']},{lab['op']}={lab['val']})"
+    if a == "CopyGroup":
+        return f"CopyGroup({lab['dest']})"
     if a == "Copy":
         return f"Copy({lab['i']},{lab['how']}{'' if lab['m'] == '-' else ':' + lab['m']},{lab['dest']})"
     return a
@@ -804,7 +915,7 @@ def _explore(cfg):
     if len(init) != 1 or not g.edges or len(head) != 1:
         raise MachineryError(f"{cfg}: unexpected export ({len(init)} initial states, {len(g.edges)} edges)")
     res.lines = []
-    return res, g, init, head[0]["defpar"]
+    return res, g, init, head[0]
 
 
 def cover(g, init, rng=None, max_len=14):
@@ -878,7 +989,9 @@ def cover(g, init, rng=None, max_len=14):
     return paths, prefix_len, sum(covered), unreachable, blocked
 
 
-def _items(pair, cfg, g, init, defpar, seed):
+def _items(pair, cfg, g, init, head, seed):
+    defpar = head["defpar"]
+    layout = cfg.split("_")[-1] in LAYOUT_FLAVOURS
     import random
     paths, prefix_len, covered, unreachable, blocked = cover(g, init, rng=random.Random(seed) if seed else None)
     if unreachable or covered != len(g.edges):
@@ -887,14 +1000,15 @@ def _items(pair, cfg, g, init, defpar, seed):
     for p, npre in zip(paths, prefix_len):
         steps = [{"last": g.edges[i][2], "expect": g.states[g.edges[i][1]]} for i in p]
         items.append({"pair": pair, "cfg": cfg, "defpar": defpar, "init": g.states[init[0]], "steps": steps,
-                      "lazy_upto": npre})
+                      "lazy_upto": npre, "idingroup": bool(head.get("idingroup")), "ingroup": bool(head.get("ingroup")),
+                      "layout": layout})
     return items, blocked
 
 
 def run(tier, seed):  # pylint: disable=too-many-locals,too-many-statements
     t0 = time.time()
     cfgs = [(pair, f"{pair}_{fl}.cfg") for pair in PAIRS for fl in FLAVOURS[tier]]
-    cfgs += [(pair, f"{pair}_{fl}.cfg") for pair, fl in RELINK[tier]]
+    cfgs += [(pair, f"{pair}_{fl}.cfg") for pair, fl in RELINK[tier] + SPECIAL[tier]]
     threads = max(1, min(6, int(os.environ.get("VERIF_PROCS", "16")) // 2))
     with ThreadPoolExecutor(threads) as ex:
         neg_futures = [ex.submit(tlc.run_tlc, SPEC_DIR, MODULE, cfg, workers=1, heap="2g", keep_lines=False,
@@ -905,10 +1019,10 @@ def run(tier, seed):  # pylint: disable=too-many-locals,too-many-statements
     states = trans = blocked_total = 0
     items = []
     per_cfg = {}
-    for (pair, cfg), (res, g, init, defpar) in zip(cfgs, explored):
+    for (pair, cfg), (res, g, init, head) in zip(cfgs, explored):
         states += res.distinct
         trans += res.generated
-        its, blocked = _items(pair, cfg, g, init, defpar, seed)
+        its, blocked = _items(pair, cfg, g, init, head, seed)
         items += its
         blocked_total += blocked
         n_alt = sum(1 for e in g.edges if e[2].get("alt"))
@@ -923,7 +1037,7 @@ def run(tier, seed):  # pylint: disable=too-many-locals,too-many-statements
     replay_wall = time.time() - t1
     viol = []
     acts = {}
-    steps = copies2 = reopens = closed_checks = planned = lazy_steps = cold_edits = relinks = 0
+    steps = copies2 = reopens = closed_checks = planned = lazy_steps = cold_edits = relinks = layouts = 0
     by_pair = {}
     for k, (v, st) in zip(order, out):
         viol += v
@@ -933,6 +1047,7 @@ def run(tier, seed):  # pylint: disable=too-many-locals,too-many-statements
         reopens += st["reopens"]
         closed_checks += st["closed_raw_checks"]
         lazy_steps += st["lazy"]
+        layouts += st["layouts"]
         cold_edits += st["cold_edits"]
         relinks += st["relinks"]
         for a, c in st["acts"].items():
@@ -964,6 +1079,7 @@ def run(tier, seed):  # pylint: disable=too-many-locals,too-many-statements
             "linked_pair_copies_checked": copies2, "reopens_checked": reopens,
             "prefix_actions_compared_without_calling_partner_getters": lazy_steps,
             "edits_applied_on_cold_partner_caches": cold_edits, "take_over_links_replayed": relinks,
+            "file_layout_checks": layouts,
             "raw_metadata_reads_while_closed": closed_checks,
             "class_pairs": len(PAIRS), "configs": per_cfg,
             "samples": [{"pair": sample["pair"], "cfg": sample["cfg"],
@@ -990,7 +1106,10 @@ def run(tier, seed):  # pylint: disable=too-many-locals,too-many-statements
             "quick: the setters implemented in shared base classes are spread over the class pairs, every pair exercises "
             "channels, unit and input_type; thorough: every setter on every pair",
             "surveys are well formed: large-loop and DC pairs carry their Transmitter ID / A-B Cell ID data before linking; "
-            "masks are aligned with whole loops / dipoles; 'Property groups' stay empty",
+            "masks are aligned with whole loops / dipoles; the EM metadata entry 'Property groups' stays empty; LLFEM has a "
+            "third transmitter loop no receiver refers to",
+            "re-linking (second A / B object), a property group holding the linking data (with the h5snap layout oracle) and "
+            "copies of the group holding the pair are explored in dedicated small configurations (qr, qi, qg) for DC, AFEM, LLFEM",
             "plain h5py and TLC are trusted; value-map labels of copied Transmitter ID / A-B Cell ID data are not compared",
         ],
     }
